@@ -18,7 +18,7 @@ const SHIFTS: [u64; 4] = [1, 2, 7, 50];
 
 pub fn sections(ctx: &Ctx) -> Vec<(&'static str, u64)> {
     let (locs, fail, typ, trivia) = match ctx.tier {
-        Tier::Quick => (80, 160, 80, 40),
+        Tier::Quick => (160, 320, 160, 100),
         Tier::Thorough => (4_000, 8_000, 4_000, 2_000),
     };
     let w1 = w1_scenarios(&ctx.corpus, false).len() as u64;
